@@ -110,7 +110,9 @@ func (v *PacketDslFormattor) VisitPacket(ctx *gen.PacketContext) interface{} {
 			}
 		}
 	}
-	formattedDsl.WriteString(v.getHiddenRightAtSameLine(ctx.GetStop()))
+	if stop := ctx.GetStop(); stop != nil {
+		formattedDsl.WriteString(v.getHiddenRightAtSameLine(stop))
+	}
 	return formattedDsl.String()
 }
 
